@@ -23,9 +23,16 @@ From Coq Require Import Qround.
 Local Open Scope Z_scope.
 
 (* "to within 1e-9 relative": 1e-9 |x*| + 1e-9 scale, scale = largest |break point| (where the
-   distribution is located), + 2e-16 (bisectBool's absolute xtol = 1e-16, dist.go:124) *)
+   distribution is located) *)
 Definition e9 : Q := 1 # 1000000000.
-Definition tol_x (scale q : Q) : Q := (e9 * Qabs q + e9 * scale + (1 # 5000000000000000))%Q.
+Definition tol_x (scale q : Q) : Q := (e9 * Qabs q + e9 * scale)%Q.
+(* bisectBool stops when high - low <= xtol = 1e-16 (dist.go:124, alg.go:90): near 0 the result is only
+   ABSOLUTELY accurate.  A result within 2e-16 of the quantile but outside the relative tolerance is
+   reported under its own signature (verdict code 10 = "xtol-limited accuracy near 0"), which counts as
+   a violation unless KNOWN_FINDINGS.txt lists it.  The default generators keep break points at 0 or
+   >= 2^-22 in magnitude, where the relative tolerance already covers 1e-16. *)
+Definition xtol_window : Q := 1 # 5000000000000000.
+Definition V_XTOL : Z := 10.
 (* slack on "CDF(result) >= y": the harness evaluates a ramp in float64 (two roundings) *)
 Definition eps_level : Q := 1 # 1000000000000.
 (* halvings of the model bisection the observed value is enclosed by *)
@@ -100,9 +107,10 @@ Definition check_pw_y (pw : pwf) (bl bh scale : Q) (y : xreal) (st : Z) (obs : x
               | XFin o =>
                   let tol := tol_x scale q in
                   if negb (st =? 0) then (tag, Some (4 :: qdiag q))
-                  else if negb (within tol q o) then (tag, Some (5 :: qdiag q))                (* not the quantile *)
+                  else if negb (within (tol + xtol_window) q o) then (tag, Some (5 :: qdiag q))   (* not the quantile *)
+                  else if negb (within tol q o) then (tag, Some (98 :: qdiag q))               (* only absolutely accurate: xtol *)
                   else if negb (Qle_bool (yq - eps_level) (pw_cdf pw o)) then (tag, Some (6 :: qdiag q))  (* CDF(result) < y: not the upper end *)
-                  else if negb (Qle_bool (x1 - tol) o && Qle_bool o (x2 + tol)) then (tag, Some (7 :: qdiag x1 ++ qdiag x2))
+                  else if negb (Qle_bool (x1 - tol - xtol_window) o && Qle_bool o (x2 + tol + xtol_window)) then (tag, Some (7 :: qdiag x1 ++ qdiag x2))
                   else (tag, None)
               | _ => (tag, Some (4 :: qdiag q))
               end
@@ -157,7 +165,7 @@ Definition check_disc_y (tab : list (Z * Q)) (lo hi : Z) (y : xreal) (st : Z) (o
         | XFin o =>
             (* the bisection ends at the smallest float with CDF >= y: the support point itself *)
             let ko := Qfloor o in
-            if (st =? 0) && (k1 <=? ko) && (ko <=? k2) && Qle_bool (o - inject_Z ko) (e9 * inject_Z ko + (1 # 5000000000000000))%Q
+            if (st =? 0) && (k1 <=? ko) && (ko <=? k2) && Qle_bool (o - inject_Z ko) (e9 * inject_Z ko + xtol_window)%Q
             then (tag, None) else (tag, Some [5; k; k1; k2])
         | _ => (tag, Some [4; k; k1; k2])
         end
@@ -178,7 +186,12 @@ Fixpoint run_disc_items (tab : list (Z * Q)) (lo hi : Z) (items : list (xreal * 
 Definition finish (r : Z * option (Z * list Z)) : list Z :=
   match r with
   | (tag, None) => verdict (if Z.land tag T_BORDER =? 0 then V_OK else V_BORDERLINE) tag (-1) []
-  | (tag, Some (idx, dg)) => match dg with [99] => verdict V_MALFORMED tag idx dg | _ => verdict V_MISMATCH tag idx dg end
+  | (tag, Some (idx, dg)) =>
+      match dg with
+      | [99] => verdict V_MALFORMED tag idx dg
+      | 98 :: d => verdict V_XTOL tag idx d
+      | _ => verdict V_MISMATCH tag idx dg
+      end
   end.
 
 (* ---------- dispatch: both bit patterns must be the same integer ---------- *)
@@ -296,7 +309,11 @@ Definition check_C07 (line : list Z) : list Z :=
                 let '(t, r) := check_pw_y pw bl bh (pw_scale pw) (XFin yq) ist (decode_bits inv) in
                 match r with
                 | None => verdict V_OK (Z.lor tag t) (-1) []
-                | Some dg => match dg with [99] => verdict V_MALFORMED tag 4 dg | _ => verdict V_MISMATCH (Z.lor tag t) 4 dg end
+                | Some dg => match dg with
+                             | [99] => verdict V_MALFORMED tag 4 dg
+                             | 98 :: d => verdict V_XTOL (Z.lor tag t) 4 d
+                             | _ => verdict V_MISMATCH (Z.lor tag t) 4 dg
+                             end
                 end
           end
       | None => verdict V_MALFORMED 0 (-1) []
